@@ -168,6 +168,10 @@ impl Planner {
         for (gi, e) in corpus.g.iter().enumerate() {
             let interesting = census_g[gi].interesting();
             for variant in 0..2 {
+                // quick tier: the 5-/6-chamber extras get one of the two variants
+                if !thorough && gi >= corpus.extra_from && variant != gi % 2 {
+                    continue;
+                }
                 let (mut s, mut rng) = self.base_spec(&e.id, &e.text, Op::IsEuclidean);
                 if variant == 1 {
                     s.xf.push(Xf::Dual);
@@ -180,11 +184,17 @@ impl Planner {
             }
         }
         // B2: symbols that pass the invariant filter: many keys x transformations
-        let reps = if thorough { 200 } else { 8 };
         for (gi, e) in corpus.g.iter().enumerate() {
             if !census_g[gi].interesting() {
                 continue;
             }
+            let extra = gi >= corpus.extra_from;
+            let reps = match (thorough, extra) {
+                (false, false) => 8,
+                (false, true) => 0,
+                (true, false) => 200,
+                (true, true) => 12,
+            };
             for r in 0..reps {
                 let (mut s, mut rng) = self.base_spec(&e.id, &e.text, Op::IsEuclidean);
                 s.xf = Self::xf_mix(&mut rng);
@@ -325,11 +335,14 @@ impl Planner {
             }
             let known = kplus[gi];
             let expect = if known { Expect::Torus } else { Expect::Unknown };
-            let (bv, cs, keys) = match (thorough, known) {
-                (false, false) => (1, 3, 2),
-                (false, true) => (1, 100, 1),
-                (true, false) => (1, 150, 2),
-                (true, true) => (2, 1000, 1),
+            let extra = gi >= corpus.extra_from;
+            let (bv, cs, keys) = match (thorough, known, extra) {
+                (false, _, true) => (1, 1, 1),
+                (true, _, true) => (1, 12, 1),
+                (false, false, false) => (1, 3, 2),
+                (false, true, false) => (1, 100, 1),
+                (true, false, false) => (1, 150, 2),
+                (true, true, false) => (2, 1000, 1),
             };
             self.c16_block(&mut specs, &e.id, &e.text, &[], bv, cs, keys, expect, known);
         }
@@ -382,7 +395,7 @@ impl Planner {
             }
         }
         // B4: branch-free members of G are closed manifolds themselves
-        for e in corpus.g.iter() {
+        for e in corpus.g.iter().take(corpus.extra_from) {
             let s0 = match Sym::parse(&e.text) {
                 Ok(s) => s,
                 Err(_) => continue,
